@@ -542,11 +542,17 @@ def write_replay(prop, name, data):
 
 
 def shrink(prop, line, still_fails):
-    """Greedy shrink using the property's candidate generator."""
+    """Greedy shrink using the property's candidate generator.  `Prop.shrink_budget` (optional, seconds): stop
+    shrinking one failing case after that long and report what has been reached (C17: a failing case over real
+    Quinn can take seconds per attempt)."""
     cur = line
+    budget = getattr(prop, "shrink_budget", None)
+    t0 = time.time()
     for _ in range(200):
         progressed = False
         for cand in prop.shrink_candidates(cur):
+            if budget is not None and time.time() - t0 > budget:
+                return cur
             if cand != cur and still_fails(cand):
                 cur = cand
                 progressed = True
